@@ -5,10 +5,14 @@ import json, os, re, shutil, subprocess, sys, tempfile
 ROOT = os.path.dirname(os.path.dirname(os.path.abspath(__file__)))
 sys.path.insert(0, os.path.join(ROOT, 'vx'))
 import propinfo
-only = sys.argv[1:]
+only = [a for a in sys.argv[1:] if not a.startswith('--')]
+OWN = '--own' in sys.argv   # run only the check of the seed's own property (fast triage)
+MISSING = '--missing' in sys.argv   # only seeds without a detection.json
 seeds = sorted(d for d in os.listdir(os.path.join(ROOT, 'seeded')) if os.path.isfile(os.path.join(ROOT, 'seeded', d, 'patch.diff')))
 if only:
     seeds = [s for s in seeds if s in only]
+if MISSING:
+    seeds = [s for s in seeds if not os.path.isfile(os.path.join(ROOT, 'seeded', s, 'detection.json'))]
 rows = []
 for sd in seeds:
     tmp = tempfile.mkdtemp(prefix='seedrepo-')
@@ -30,15 +34,15 @@ for sd in seeds:
             return p, {'rc': o.returncode, 'violations': [re.sub(r'replay=\S+ ', '', v)[:300] for v in viol], 'undecided': [u[:300] for u in und]}
         import concurrent.futures as cf
         with cf.ThreadPoolExecutor(max_workers=5) as ex:
-            for p, r in ex.map(one, propinfo.CLAIMED):
+            for p, r in ex.map(one, [sd.split('-')[0]] if OWN else propinfo.CLAIMED):
                 res[p] = r
         json.dump(res, open(os.path.join(ROOT, 'seeded', sd, 'detection.json'), 'w'), indent=1)
         rows.append((sd, res))
         print(sd, {p: r['rc'] for p, r in res.items() if r['rc'] != 0}, flush=True)
     finally:
         shutil.rmtree(tmp, ignore_errors=True)
-with open(os.path.join(ROOT, 'seeded', 'MATRIX.md'), 'a' if only else 'w') as fh:
-    if not only:
+with open(os.path.join(ROOT, 'seeded', 'MATRIX.md'), 'a' if (only or MISSING) else 'w') as fh:
+    if not (only or MISSING):
         fh.write('# Seeded changes vs checks (rc: 0 = no alarm, 1 = VIOLATION, 2 = undecided)\n\n')
     for sd, res in rows:
         target = sd.split('-')[0]
